@@ -113,6 +113,10 @@ func init() {
 			n, err := strconv.ParseInt(fr.i.ctx.concStr(a[0]), int(asInt64(a[1])), int(asInt64(a[2])))
 			return tuple{n, fr.mkError(err)}
 		},
+		"strconv.ParseFloat": func(fr *frame, a []value) value {
+			f, err := strconv.ParseFloat(fr.i.ctx.concStr(a[0]), int(asInt64(a[1])))
+			return tuple{f, fr.mkError(err)}
+		},
 		"strconv.ParseBool": func(fr *frame, a []value) value {
 			b, err := strconv.ParseBool(fr.i.ctx.concStr(a[0]))
 			return tuple{b, fr.mkError(err)}
